@@ -9,6 +9,8 @@ Discharge: abstract interpretation (intervals + relations + variant facts: D-CON
 then pack-level rules D-SERDE, D-MEM, the accepted-invariant table (each entry with a re-checked side condition), and
 finally attribution of parameter-dependent failures to the call sites that pass the unbounded value.
 """
+import json
+import os
 import re
 
 import analysis
@@ -51,10 +53,31 @@ def fn_short(fid):
     return short("::".join(keep)) if False else "::".join(keep)
 
 
-def memsize_fns(res):
+def fold_accumulators(fx, res):
+    """{closure id: (accumulator root, provenance of the fold's initial value)} for closures passed to Iterator::fold:
+    the closure's first explicit parameter only ever holds the initial value or an earlier result of the closure"""
+    out = {}
+    for fid, it in res.interps.items():
+        body = it.body
+        for b, t in body.calls():
+            if strip_generics(t["callee"].get("path") or "") != "core::iter::traits::iterator::Iterator::fold" or len(t["args"]) != 3:
+                continue
+            st = it.out_states.get(b)
+            if st is None:
+                continue
+            init_prov = it.read_op(st, t["args"][1], (b, "t"))[3] or frozenset()
+            clo_prov = it.read_op(st, t["args"][2], (b, "t"))[3] or frozenset()
+            for r in clo_prov:
+                if r.startswith("CALL:") and "{closure" in r:
+                    out[r[5:]] = ("P2", init_prov)
+    return out
+
+
+def memsize_fns(res, fx=None):
     """functions whose integer results are computed only from constants, lengths of in-memory collections and other such
     functions (in-memory size computations)"""
     ms = set()
+    acc = fold_accumulators(fx, res) if fx is not None else {}
     changed = True
     while changed:
         changed = False
@@ -64,19 +87,23 @@ def memsize_fns(res):
             ok = True
             for sub, (lo, hi, prov) in summ.items():
                 for r in prov:
+                    if f in acc and r == acc[f][0] and all(mem_root(x, ms) for x in acc[f][1]):
+                        continue
                     if not mem_root(r, ms):
                         ok = False
             if ok and summ:
                 ms.add(f)
                 changed = True
-    return ms
+    return ms, acc
 
 
-def mem_root(r, ms):
+def mem_root(r, ms, fid=None, acc=None):
     if r in MEM_ROOTS or r.startswith("S:"):
         return True
     if r.startswith("CALL:"):
         return r[5:] in ms
+    if acc and fid in acc and r == acc[fid][0] and fid in ms:
+        return True       # accumulator of a fold whose initial value and step results are in-memory size terms
     return False
 
 
@@ -181,16 +208,31 @@ def user_adts(fx, entries):
     return out
 
 
+ACCEPTED_CKEYS = os.path.join(os.path.dirname(os.path.abspath(__file__)), "accepted_ckeys.json")
+
+
+def load_accepted_ckeys(pid):
+    """canonical keys of the obligations each accepted-invariant entry matched on the reference tree (generated by
+    tools_accepted.py, committed): lets an accepted entry keep matching after a behaviour-preserving rewrite of the operands"""
+    try:
+        with open(ACCEPTED_CKEYS) as fh:
+            return json.load(fh).get(pid, {})
+    except (OSError, ValueError):
+        return {}
+
+
 class Engine:
-    def __init__(self, fx, chk, entries, assumptions, accepted, profile="dev", field_exclude=None):
+    def __init__(self, fx, chk, entries, assumptions, accepted, profile="dev", field_exclude=None, accepted_id=None):
         self.fx = fx
         self.chk = chk
         self.entries = entries
         self.cg = callgraph(fx)
         self.clo = self.cg.closure(entries)
         self.accepted = accepted
+        self.accepted_hits = {}
+        self.accepted_ckeys = load_accepted_ckeys(accepted_id or chk.pid)
         self.res = analysis.analyze(fx, entries, assumptions, profile=profile, tag="pf", field_exclude=field_exclude)
-        self.ms = memsize_fns(self.res)
+        self.ms, self.fold_acc = memsize_fns(self.res, fx)
         self.assumptions = assumptions
         self.profile = profile
         self.stats = {}
@@ -216,6 +258,26 @@ class Engine:
         expr = re.sub(r"\s+", " ", expr)[:140]
         return "%s|%s|%s" % (fn_short(fid), what, expr)
 
+    def ckey_of(self, fid, ob):
+        """canonical twin of key_of: operands rendered by what they are computed from (mir.Body.canon_op), so that renaming
+        a local, introducing a temporary or changing the spelling of a lossless conversion keeps the key"""
+        d = ob["detail"]
+        what = ob["what"]
+        if ob["kind"] == "assert":
+            if "a" in d and "b" in d:
+                expr = "%s, %s" % (d["a"].get("cexpr"), d["b"].get("cexpr"))
+            elif "dividend" in d:
+                expr = "%s / %s" % (d["dividend"].get("cexpr"), d.get("divisor", {}).get("cexpr", "?"))
+            elif "index" in d:
+                expr = "%s < %s" % (d["index"].get("cexpr"), d["len"].get("cexpr"))
+            elif "a" in d:
+                expr = d["a"].get("cexpr")
+            else:
+                expr = ""
+        else:
+            expr = ", ".join(d.get("cargs", []))
+        return "%s|%s|%s" % (fn_short(fid), what, re.sub(r"\s+", " ", expr or "")[:200])
+
     # ---- run -----------------------------------------------------------------
     def run(self):
         fx, chk = self.fx, self.chk
@@ -235,6 +297,7 @@ class Engine:
             chk.ok("PF.recursion", "closure", "no recursive cycle among %d functions" % len(self.clo))
         # obligations
         seen_keys = {}
+        seen_ckeys = {}
         n_total = 0
         for fid in sorted(self.res.interps):
             it = self.res.interps[fid]
@@ -250,6 +313,11 @@ class Engine:
                 seen_keys[key] = k2 + 1
                 if k2:
                     key = "%s#%d" % (key, k2)
+                ck = self.ckey_of(fid, ob)
+                c2 = seen_ckeys.get(ck, 0)
+                seen_ckeys[ck] = c2 + 1
+                ob["ckey"] = ck if not c2 else "%s#%d" % (ck, c2)
+                ob["detail"]["ckey"] = ob["ckey"]
                 self.decide(fid, fn, it, ob, key)
         self.stats["obligations"] = n_total
         return n_total
@@ -284,18 +352,21 @@ class Engine:
         # ---- D-MEM
         if ob["kind"] == "assert" and ob["what"] in ("Overflow(Add)", "Overflow(Mul)") and "a" in d and "b" in d:
             roots = set(d["a"]["prov"]) | set(d["b"]["prov"])
-            if roots and all(mem_root(r, self.ms) for r in roots):
+            if roots and all(mem_root(r, self.ms, fid, self.fold_acc) for r in roots):
                 chk.ok(rule, key, "D-MEM: operands are in-memory size terms (constants, len(), size functions): bounded by A-MEM", site)
                 chk.assume("A-MEM: the wire size of any in-memory box (sum of len() x element size over its collections) is below 2^63")
                 return
         # ---- accepted invariants with side conditions
-        for acc in self.accepted:
-            if acc["match"](fid, fn, ob, key):
+        for ai, acc in enumerate(self.accepted):
+            if acc["match"](fid, fn, ob, key) or ob.get("ckey") in self.accepted_ckeys.get(str(ai), ()):
+                self.accepted_hits.setdefault(str(ai), []).append(ob.get("ckey"))
                 ok, why = acc["side"](self, fid, fn, it, ob)
                 if ok:
                     chk.ok(rule, key, "accepted invariant: %s [side condition holds: %s]" % (acc["reason"], why), site)
                     chk.trust("accepted: %s -- %s" % (key, acc["reason"]))
                     return
+                if acc.get("soft"):
+                    continue          # a generic discharge rule that does not apply here: try the next entries
                 chk.bad(rule, key, "accepted invariant no longer holds (%s): %s" % (acc["reason"], why), site, d)
                 return
         # ---- parameter-dependent: attribute to callers
@@ -309,7 +380,8 @@ class Engine:
             blamed = live
             if blamed:
                 for caller, csite in blamed:
-                    chk.bad(rule, "%s|from=%s" % (key, fn_short(caller)), "%s can panic: %s -- reached with an unbounded argument from %s" % (ob["what"], self.describe(ob), fn_short(caller)), csite, d)
+                    chk.bad(rule, "%s|from=%s" % (key, fn_short(caller)), "%s can panic: %s -- reached with an unbounded argument from %s" % (ob["what"], self.describe(ob), fn_short(caller)), csite,
+                            dict(d, ckey="%s|from=%s" % (ob.get("ckey"), fn_short(caller))))
                 return
         chk.bad(rule, key, "%s can panic: %s" % (ob["what"], self.describe(ob)), site, d)
 
